@@ -1,5 +1,5 @@
 (* C07 - the size filter (-Z SIZE, -T f@size=N): the documented semantics as an event view (select_size) and as a
-   tree view (zsplice, used by the checker ok_size); -Z alone hides exactly what -H on every smaller function hides,
+   tree view (zprune, used by the checker ok_size: small functions spliced out together with the time filter); -Z alone hides exactly what -H on every smaller function hides,
    which ties the size filter to the proved semantics of the hide option. *)
 From Coq Require Import NArith ZArith List Bool Lia.
 Import ListNotations.
@@ -42,15 +42,16 @@ Proof. reflexivity. Qed.
 Lemma fheight_app f g : fheight (f ++ g) = Nat.max (fheight f) (fheight g).
 Proof. induction f as [|n f IH]; [reflexivity|]. cbn [app]. rewrite !fheight_cons, IH. lia. Qed.
 
-Lemma zsplice_height szof ztr : forall n zs, (fheight (zsplice szof ztr zs n) <= height n)%nat.
+Lemma zprune_height szof ztr : forall n zs, (fheight (zprune plain szof ztr zs 0 n) <= height n)%nat.
 Proof.
-  induction n as [f t0 t1 ks IH] using call_ind'. intro zs. cbn [zsplice height]. fold (fheight ks).
+  induction n as [f t0 t1 ks IH] using call_ind'. intro zs. cbn [zprune height plain trig_of notrig q_time]. fold (fheight ks).
   set (zs' := match ztr f with Some z => z | None => zs end).
-  assert (K : (fheight (flat_map (zsplice szof ztr zs') ks) <= fheight ks)%nat).
+  assert (K : (fheight (flat_map (zprune plain szof ztr zs' 0) ks) <= fheight ks)%nat).
   { clear -IH. induction IH as [|k ks Hk _ IHk]; [cbn; lia|]. cbn [flat_map]. rewrite fheight_app, fheight_cons.
     specialize (Hk zs'). lia. }
-  destruct (szof f <? zs')%N; [lia|]. rewrite fheight_cons. cbn [height]. fold (fheight (flat_map (zsplice szof ztr zs') ks)).
-  cbn. lia.
+  destruct (szof f <? zs')%N; [lia|].
+  match goal with |- context [if ?b then _ else _] => destruct b end; [|cbn; lia].
+  rewrite fheight_cons. cbn [height]. fold (fheight (flat_map (zprune plain szof ztr zs' 0) ks)). cbn. lia.
 Qed.
 
 Lemma vis_plain_app b d rd f g :
@@ -58,20 +59,21 @@ Lemma vis_plain_app b d rd f g :
 Proof. apply flat_map_app. Qed.
 
 Lemma splice_is_vis_size szof ztr : forall n zs b d rd rd', Z.of_nat (height n) <= b ->
-  map strip (flat_map (vis plain false b d rd') (zsplice szof ztr zs n)) = map strip (vis_size szof ztr zs d rd n).
+  map strip (flat_map (vis plain false b d rd') (zprune plain szof ztr zs 0 n)) = map strip (vis_size szof ztr zs d rd n).
 Proof.
   induction n as [f t0 t1 ks IH] using call_ind'. intros zs b d rd rd' Hb.
-  cbn [height] in Hb. fold (fheight ks) in Hb. cbn [zsplice vis_size].
+  cbn [height] in Hb. fold (fheight ks) in Hb. cbn [zprune vis_size plain trig_of notrig q_time q_trace q_caller caller_filter].
   set (zs' := match ztr f with Some z => z | None => zs end).
   assert (K : forall b d rd rd', Z.of_nat (fheight ks) <= b ->
-            map strip (flat_map (vis plain false b d rd') (flat_map (zsplice szof ztr zs') ks))
+            map strip (flat_map (vis plain false b d rd') (flat_map (zprune plain szof ztr zs' 0) ks))
             = map strip (flat_map (vis_size szof ztr zs' d rd) ks)).
   { clear Hb b d rd rd'. induction IH as [|k ks Hk _ IHk]; intros b d rd rd' Hb; [reflexivity|].
     rewrite fheight_cons in Hb. cbn [flat_map]. rewrite vis_plain_app, !map_app.
     rewrite (Hk zs' b d rd rd') by lia. rewrite (IHk b d rd rd') by lia. reflexivity. }
   destruct (szof f <? zs')%N.
   - apply K. lia.
-  - cbn [flat_map vis plain trig_of notrig q_filter q_depth q_hide fmode_in negb andb orb gdepth]. rewrite app_nil_r.
+  - replace (tdelta t1 t0 <? 0)%N with false by lia. cbn [negb andb orb].
+    cbn [flat_map vis plain trig_of notrig q_filter q_depth q_hide fmode_in negb andb orb gdepth]. rewrite app_nil_r.
     change (loc_hidden plain f) with false. cbn iota. replace (b <=? 0) with false by lia. cbn [orb].
     unfold hidden_plt. cbn [plain libcall negb andb]. cbn [map]. rewrite !map_app. cbn [map strip v_exit v_fn v_disp v_time].
     f_equal. f_equal. apply K. lia.
@@ -81,7 +83,6 @@ Theorem size_filter_tree_view szof ztr zs f : (fheight f <= 1024)%nat ->
   map strip (select_z plain szof ztr zs f) = map strip (select_size szof ztr zs f).
 Proof.
   intro Hh. unfold select_z, select_size, select. cbn [plain threshold gdepth].
-  rewrite (tprune_forest_id plain) by (auto; intro k; reflexivity).
   induction f as [|n f IH]; [reflexivity|]. rewrite fheight_cons in Hh.
   cbn [flat_map]. rewrite vis_plain_app, !map_app.
   rewrite (splice_is_vis_size szof ztr n zs 1024 0 0 0) by lia. rewrite IH by lia. reflexivity.
